@@ -47,7 +47,7 @@ class Engine:
     name = "files"
     spec = "files"
     property_id = "C16"
-    runs = {"quick": 700, "thorough": 120000}
+    runs = {"quick": 4000, "thorough": 600000}
     wall = {"quick": 300, "thorough": 900}
     selftest_n = {"quick": 12, "thorough": 48}
     chunk = 20
